@@ -68,6 +68,14 @@ def analyze(case, seed=0, fault_at=None, fault_kind="raise"):
     run = rewrite.run(case, seed=seed, fault_at=fault_at,
                       fault_kind=fault_kind)
     a.run = run
+    # a module of the same IR that the rewrite is not about must come out
+    # as it went in (also when apply() raises); which facets a property
+    # speaks about is the check's choice (bystander())
+    a.by_changes = rewrite.bystander_changes(run)
+    if a.by_changes is not None:
+        a.ctr["bystander_modules_compared"] = 1
+        a.ctr["bystander_kind_twin" if case["bystander"] == "twin"
+              else "bystander_kind_unrelated"] = 1
     if run.exception is not None and fault_at is None:
         kind, key = oracles.classify_apply_exception(case, run.exception)
         if kind == "refused":
@@ -115,6 +123,32 @@ def analyze(case, seed=0, fault_at=None, fault_kind="raise"):
         a.ctr["applies_with_cross_patch_references"] = 1
     a.ctr["patch_invocations"] = len(run.rec.invocations)
     return a
+
+
+BYSTANDER_FACETS = {
+    "C01": ("bytes", "name-isa-format"),
+    "C02": ("symbols", "proxies", "entry"),
+    "C03": ("cfg", "blocks"),
+    "C04": ("exprs", "aux:symbolicExpressionSizes", "aux:comments",
+            "aux:padding", "aux:alignment", "aux:types", "aux:encodings"),
+    "C06": ("aux:functionEntries", "aux:functionBlocks",
+            "aux:functionNames"),
+    "C08": ("aux:cfiDirectives",),
+}
+
+
+def bystander(a, prop):
+    """violations for the facets of the bystander module that `prop` is
+    about (None: every facet, tables the rewrite added included)"""
+    if not a.by_changes:
+        return
+    want = BYSTANDER_FACETS.get(prop)
+    for f in a.by_changes:
+        if want is None or f in want:
+            a.viol.append({"key": "bystander-module-changed:" + (
+                "aux-table" if f.startswith("aux:") and want is None
+                else f), "msg": f"facet {f} of the module the rewrite was "
+                "not about differs from before the rewrite"})
 
 
 def result(a, sig_nontrivial=True):
